@@ -140,11 +140,34 @@ def run_one(ck, prog):
             return False
         ops = [x for x in walk_deep(oargs[idx], ctx.prov) if x[0] == "param"]
         return bool(ops) and {x[2] for x in ops} == {pname}
+
+    def from_param_object(c2, e, pname, outer_bb):
+        """the configured values travel in a parameter struct: e is `setup.<pname>` (possibly behind a reference) of the helper's struct
+        parameter, and the struct built at the call in do_spawn has do_spawn's `pname` in that field"""
+        flds = [x for x in walk_deep(e, c2.prov, limit=60) if x[0] == "field" and isinstance(x[2], str) and mentions(x[1], c2.prov, lambda z: z[0] == "param") and
+                not mentions(x[1], c2.prov, lambda z: z[0] == "field")]
+        if len({x[2] for x in flds}) != 1:
+            return False
+        fname = flds[0][2]
+        if c2 is ctx:
+            return fname == pname      # do_spawn itself receives the parameter struct: its field of that name is the configured value
+        pidx = [z[1] for z in walk_deep(flds[0][1], c2.prov, limit=20) if z[0] == "param"][0] - 1
+        oargs = ctx.args(outer_bb)
+        if pidx >= len(oargs):
+            return False
+        for z in walk_deep(oargs[pidx], ctx.prov, limit=80):
+            if z[0] == "agg" and len(z) > 4 and z[4] and fname in z[4]:
+                op = z[3][list(z[4]).index(fname)]
+                names = {w[2] for w in walk_deep(op, ctx.prov, limit=60) if w[0] == "param"}
+                return fname == pname and names == {pname}
+        # the struct is handed through unchanged from do_spawn's own parameter
+        oa = strip_casts(oargs[pidx])
+        return fname == pname and isinstance(oa, tuple) and oa[0] == "param"
     for name, lst in want.items():
         for (c2, bb, ob) in steps[name]:
             args = c2.args(bb)
             for ai, pname in lst:
-                ok = ai < len(args) and from_param(c2, args[ai], pname, ob)
+                ok = ai < len(args) and (from_param(c2, args[ai], pname, ob) or from_param_object(c2, args[ai], pname, ob))
                 ck.ob("C13.2", f"arg|{name.split('::')[-1]}#{ai}={pname}", ok, fn=c2.path, site=c2.site(bb),
                       detail=f"`{name.split('::')[-1]}` argument {ai} must be the configured `{pname}`, found {show(args[ai]) if ai < len(args) else None}")
     # a configured attribute is applied WHENEVER it is configured: from the `Some` edge of the option no return is reachable
@@ -162,7 +185,7 @@ def run_one(ck, prog):
                         for f in c2.edge_facts(e):
                             if f[0] == "variant" and f[2] == "Some":
                                 ps = {x[2] for x in walk_deep(f[1], c2.prov) if x[0] == "param"}
-                                if ps == {pname}:
+                                if ps == {pname} or from_param_object(c2, f[1], pname, ob):
                                     some_edges.append(e)
                 skipped = [e for e in some_edges if any(rb in c2.cfg.reachable_from(e.dst, avoid={bb}) for rb in c2.cfg.return_blocks()) and e.dst != bb]
                 ck.ob("C13.2", f"applied-whenever-configured|{pname}", bool(some_edges) and not skipped, fn=c2.path, site=c2.site(bb),
